@@ -30,6 +30,7 @@ char * verif_strncpy (char *dst, const char *src, size_t n) ;
 int vin_command, vin_datasize, vin_mode, vin_have_written, vin_norm_float, vin_norm_double, vin_clipping, vin_auto_header,
 	vin_channels, vin_float_int_mult, vin_scale_int_float, vin_last_op, vin_data_null, vin_ieee_replace ;
 sf_count_t vin_rc, vin_wc, vin_frames, vin_dataoffset ;
+int *vin_channel_map ; int vin_id ;	/* vin_id: the channel id at the arbitrary position g_idx of a channel map passed in */
 
 /* ---- E1: strlen of the buffer snprintf just filled.  verif_snprintf (env_stubs.h) cannot tell
 ** us where it put the terminator, so this model re-derives it: it returns some k with
@@ -204,7 +205,7 @@ __CPROVER_assigns (psf->error; (data != NULL && datasize > 0): __CPROVER_object_
 	&& PSF->norm_double == vin_norm_double && PSF->add_clipping == vin_clipping && PSF->auto_header == vin_auto_header \
 	&& PSF->float_int_mult == vin_float_int_mult && PSF->scale_int_float == vin_scale_int_float && PSF->last_op == vin_last_op \
 	&& PSF->read_current == vin_rc && PSF->write_current == vin_wc && PSF->sf.frames == vin_frames && PSF->dataoffset == vin_dataoffset \
-	&& PSF->ieee_replace == vin_ieee_replace)
+	&& PSF->ieee_replace == vin_ieee_replace && PSF->channel_map == vin_channel_map)
 
 #define FILE_OK		(PSF->virtual_io != SF_FALSE || PSF->file.filedes >= 0)
 
@@ -231,6 +232,7 @@ __CPROVER_requires (sndfile == NULL || HANDLE_OK)
 __CPROVER_requires ((command == vin_command || command == SFC_SET_COMPRESSION_LEVEL || command == SFC_SET_OGG_PAGE_LATENCY) && datasize == vin_datasize && 0 <= datasize && datasize <= DATASIZE_MAX)
 __CPROVER_requires (data == NULL || __CPROVER_is_fresh (data, datasize > 0 ? (size_t) datasize : 0))
 __CPROVER_requires ((data == NULL) == (vin_data_null != 0))
+__CPROVER_requires ((command == SFC_SET_CHANNEL_MAP_INFO && data != NULL && 0 <= g_idx && g_idx < 4096 && (g_idx + 1) * 4 <= datasize) ==> ((const int *) data) [g_idx] == vin_id)
 __CPROVER_assigns (sf_errno, g_fmt_size, g_fmt_dst, __CPROVER_object_whole (&gd); sndfile != NULL: __CPROVER_object_whole (sndfile); (data != NULL && datasize > 0): __CPROVER_object_whole (data);
 	(sndfile != NULL && PSF->instrument != NULL): __CPROVER_object_whole (PSF->instrument))
 __CPROVER_frees (sndfile != NULL: PSF->peak_info, PSF->channel_map)
@@ -242,6 +244,9 @@ __CPROVER_ensures ((sndfile != NULL && IS_QUERY (vin_command)) ==> (g_hdr_calls 
 /* a rejected setter changes nothing it guards (C09) */
 __CPROVER_ensures ((sndfile != NULL && FILE_OK && vin_have_written && (vin_command == SFC_SET_CUE || vin_command == SFC_SET_INSTRUMENT || vin_command == SFC_SET_CHANNEL_MAP_INFO)) ==>
 					(__CPROVER_return_value == SF_FALSE && PSF->error == SFE_CMD_HAS_DATA && g_hdr_calls == 0)) /*@C12.metadata_after_audio_is_refused*/
+__CPROVER_ensures ((sndfile != NULL && FILE_OK && vin_command == SFC_SET_CHANNEL_MAP_INFO && !vin_have_written && !vin_data_null && vin_datasize == 4 * vin_channels
+					&& 0 <= g_idx && g_idx < vin_channels && (vin_id <= SF_CHANNEL_MAP_INVALID || vin_id >= SF_CHANNEL_MAP_MAX)) ==>
+					(__CPROVER_return_value == SF_FALSE && PSF->error == SFE_BAD_COMMAND_PARAM && PSF->channel_map == vin_channel_map)) /*@C09.rejected_channel_map_keeps_the_stored_one*/ /*@C12.rejected_channel_map_keeps_the_stored_one*/
 /* the header is rewritten exactly once by the commands that promise it (C11) */
 __CPROVER_ensures ((sndfile != NULL && FILE_OK && vin_command == SFC_UPDATE_HEADER_NOW) ==> g_hdr_calls == (PSF->write_header != NULL ? 1 : 0)) /*@C11.update_header_now_calls_write_header_once*/
 __CPROVER_ensures ((sndfile != NULL && FILE_OK && vin_command == SFC_SET_UPDATE_HEADER_AUTO) ==> (PSF->auto_header == (vin_datasize ? SF_TRUE : SF_FALSE) && __CPROVER_return_value == PSF->auto_header)) /*@C11.auto_header_flag*/
@@ -261,12 +266,18 @@ void h_command (void)
 	  vin_command = b [0] ; vin_datasize = b [1] ; vin_mode = b [2] ; vin_have_written = b [3] ; vin_norm_float = b [4] ; vin_norm_double = b [5] ;
 	  vin_clipping = b [6] ; vin_auto_header = b [7] ; vin_channels = b [8] ; vin_float_int_mult = b [9] ; vin_scale_int_float = b [10] ;
 	  vin_last_op = b [11] ; vin_data_null = b [12] ; vin_ieee_replace = b [13] ;
-	  vin_rc = a [0] ; vin_wc = a [1] ; vin_frames = a [2] ; vin_dataoffset = a [3] ; }
+	  vin_rc = a [0] ; vin_wc = a [1] ; vin_frames = a [2] ; vin_dataoffset = a [3] ; { int *cm_nd ; vin_channel_map = cm_nd ; vin_id = b [14] ; } }
+	GHOST_HAVOC () ;
 	g_hdr_calls = 0 ; g_codec_calls = 0 ; g_seek_calls = 0 ; g_fmt_size = 0 ; g_fmt_dst = NULL ;
 #ifdef CMD_FIXED
 	/* one unit per command id of the public header: the id is concrete (symbolic execution prunes the other
 	** cases), datasize / data / handle state stay symbolic */
 	command = CMD_FIXED ; vin_command = CMD_FIXED ;
+#endif
+#ifdef DATASIZE_FIXED
+	/* channel-proportional commands: malloc/memcpy of a symbolic size are out of reach, so the size argument is
+	** enumerated too (the accepted size, its neighbours, 0 and a large one) */
+	datasize = DATASIZE_FIXED ; vin_datasize = DATASIZE_FIXED ;
 #endif
 #ifdef CMD_GROUP
 	__CPROVER_assume (CMD_GROUP (vin_command)) ;
@@ -277,6 +288,8 @@ void h_command (void)
 	REACH (vin_command == SFC_SET_CHANNEL_MAP_INFO && r != 0, "channel map accepted") ;
 	REACH (vin_command == 0x7777 && sndfile != NULL, "undefined command id") ;
 #endif
+#if !defined (DATASIZE_FIXED) || DATASIZE_FIXED > 0
 	REACH (sndfile != NULL && vin_data_null == 0 && vin_datasize > 0, "handle and data present") ;
+#endif
 	CANARY () ;
 }
